@@ -17,6 +17,7 @@ LEVEL_TEXT = (
     'take the live session\'s real Negotiated object and call UpdateCollection.messages() on one collection mixing IPv4, MP families, '
     'announces and withdraws with counts around what fills a message and attribute blocks leaving 5-300 bytes of room; same oracle.'
     " An enumerated grid steps the room left by the attributes through the MP attribute's extended-length switch; the packer is also handed routes of a family the peer did not offer."
+    ' RFC 8950 for plain IPv4 unicast; grid cells where the announces end exactly on a full UPDATE and withdraws follow.'
 )
 LEVEL_NOTE = 'trusts: reference codec; routes whose attribute block is within 48 bytes of the point where not even one prefix fits may legitimately be sent or skipped (either is accepted), beyond that the verdict is strict'
 DESIGN_REF = 'DESIGN.md section 5, C09'
